@@ -28,6 +28,8 @@ pub struct ProverCfg {
     pub debug_lookups: bool,
     /// register the width-32 Poseidon2 table (arity-4 MMCS circuits) instead of the width-16 one
     pub poseidon_w32: bool,
+    /// register the Poseidon1 width-16 table of the universe's field instead of the Poseidon2 one
+    pub poseidon1: bool,
 }
 impl Default for ProverCfg {
     fn default() -> Self {
@@ -40,6 +42,7 @@ impl Default for ProverCfg {
             npo: BuilderOpts::default(),
             debug_lookups: false,
             poseidon_w32: false,
+            poseidon1: false,
         }
     }
 }
@@ -47,7 +50,7 @@ impl ProverCfg {
     pub fn to_json(&self) -> serde_json::Value {
         serde_json::json!({"public_lanes": self.public_lanes, "alu_lanes": self.alu_lanes, "horner_k": self.horner_k,
             "min_height": self.min_height, "profile_standard": self.profile_standard,
-            "poseidon": self.npo.poseidon, "recompose": self.npo.recompose, "poseidon_w32": self.poseidon_w32})
+            "poseidon": self.npo.poseidon, "recompose": self.npo.recompose, "poseidon_w32": self.poseidon_w32, "poseidon1": self.poseidon1})
     }
     pub fn from_json(v: &serde_json::Value) -> Self {
         let g = |k: &str, d: usize| v.get(k).and_then(|x| x.as_u64()).map(|x| x as usize).unwrap_or(d);
@@ -61,6 +64,7 @@ impl ProverCfg {
             npo: BuilderOpts { poseidon: b("poseidon", false), recompose: b("recompose", false) },
             debug_lookups: false,
             poseidon_w32: b("poseidon_w32", false),
+            poseidon1: b("poseidon1", false),
         }
     }
     pub fn swarm(rng: &mut crate::core::prng::Rng, npo: BuilderOpts) -> Self {
@@ -73,8 +77,15 @@ impl ProverCfg {
             npo,
             debug_lookups: false,
             poseidon_w32: false,
+            poseidon1: false,
         }
     }
+}
+
+/// Poseidon1 table configuration of the field a Poseidon2 configuration belongs to.
+pub fn p1_of(p2: p3_circuit::ops::Poseidon2Config) -> p3_circuit::ops::Poseidon1Config {
+    use p3_circuit::ops::{Poseidon1Config as P1, Poseidon2Config as P2};
+    if p2 == P2::BABY_BEAR_D4_W16 { P1::BABY_BEAR_D4_W16 } else { P1::KOALA_BEAR_D4_W16 }
 }
 
 /// What key generation produced, reduced to process-independent numbers.
@@ -199,7 +210,9 @@ pub mod uparams {
 
 macro_rules! uni_npo_prover {
     (yes, $p:ident, $cfg:ident, $d:expr, $p2cfg:expr) => {
-        if $cfg.npo.poseidon {
+        if $cfg.npo.poseidon && $cfg.poseidon1 {
+            $p.register_poseidon1_table::<$d>($crate::uni::p1_of($p2cfg));
+        } else if $cfg.npo.poseidon {
             $p.register_poseidon2_table::<$d>(if $cfg.poseidon_w32 { p3_circuit::ops::Poseidon2Config::KOALA_BEAR_D4_W32 } else { $p2cfg });
         }
         if $cfg.npo.recompose {
@@ -240,7 +253,10 @@ macro_rules! uni_npo_builder {
 }
 macro_rules! uni_npo_keygen {
     (yes, $cfg:ident, $npo_prep:ident, $air_builders:ident, $sc:ty, $d:expr) => {
-        if $cfg.npo.poseidon {
+        if $cfg.npo.poseidon && $cfg.poseidon1 {
+            $npo_prep.push(Box::new(p3_circuit_prover::Poseidon1Preprocessor));
+            $air_builders.extend(p3_circuit_prover::batch_stark_prover::poseidon1_air_builders::<$sc, $d>());
+        } else if $cfg.npo.poseidon {
             $npo_prep.push(Box::new(p3_circuit_prover::Poseidon2Preprocessor));
             $air_builders.extend(p3_circuit_prover::batch_stark_prover::poseidon2_air_builders::<$sc, $d>());
         }
